@@ -119,9 +119,31 @@ func runC02(c *Ctx) {
 					note(x.Val)
 				}
 			case *ssa.Call:
-				// delegation: v.Call.Operands(rands)
-				if callee := x.Call.StaticCallee(); callee != nil && callee.Name() == "Operands" && len(x.Call.Args) > 0 {
-					note(x.Call.Args[0])
+				// delegation: v.Call.Operands(rands), or a helper of the package that is handed the operand
+				// list being built together with (the address of) a field: appendElemAddrs(rands, s.Results)
+				callee := x.Call.StaticCallee()
+				if callee == nil || FuncPkgPath(callee) != irPkg {
+					return
+				}
+				takesRands := false
+				for _, a := range x.Call.Args {
+					if strings.HasSuffix(a.Type().String(), "[]*honnef.co/go/tools/go/ir.Value") {
+						takesRands = true
+					}
+				}
+				if !takesRands {
+					return
+				}
+				for _, a := range x.Call.Args {
+					if !strings.HasSuffix(a.Type().String(), "[]*honnef.co/go/tools/go/ir.Value") {
+						note(a)
+						// a field handed over by value (a slice of operands): the load of recv.F
+						for y := range BackSlice(a, SliceOpts{NoMemory: true}) {
+							if u, ok := y.(*ssa.UnOp); ok {
+								note(u.X)
+							}
+						}
+					}
 				}
 			}
 		})
@@ -308,7 +330,7 @@ func runC02(c *Ctx) {
 							})
 						}
 						// (i) the operand is a lifted Alloc that is deleted in the same pass
-						isLifted := CondEdges(fn, func(cond ssa.Value) (bool, bool) {
+						isLifted := CondEdgesPhi(fn, func(cond ssa.Value) (bool, bool) {
 							e, ok := cond.(*ssa.Extract)
 							if !ok || e.Index != 1 {
 								return false, false
@@ -316,10 +338,7 @@ func runC02(c *Ctx) {
 							ta, ok := e.Tuple.(*ssa.TypeAssert)
 							return ok && strings.HasSuffix(ta.AssertedType.String(), "go/ir.Alloc") && isField(ta.X), true
 						})
-						idx := CmpEdges(fn, func(x, y ssa.Value) bool {
-							k, ok := ConstInt(y)
-							return ok && k == 0 && DerivesLocal(x, IsFieldOf("ir.Alloc", "index"))
-						}, func(rel string, truth bool) bool { return (rel == ">=" && truth) || (rel == "<" && !truth) })
+						idx := IntCmpConstEdges(fn, func(v ssa.Value) bool { return DerivesLocal(v, IsFieldOf("ir.Alloc", "index")) }, false, func(lo, hi int64) bool { return lo >= 0 })
 						ok1, _ := MustPassEdges(fn, st, isLifted)
 						ok2, _ := MustPassEdges(fn, st, idx)
 						if ok1 && ok2 && len(isLifted) > 0 && len(idx) > 0 {
@@ -328,13 +347,47 @@ func runC02(c *Ctx) {
 						// (ii) detached from that operand's referrers (or it has none) on every path
 						detachF := func(x ssa.Instruction) bool {
 							ci, ok := x.(ssa.CallInstruction)
-							if !ok || !strings.HasSuffix(CalleeName(ci.Common()), ".removeInstr") {
+							if !ok {
 								return false
 							}
-							return DerivesLocal(ci.Common().Args[0], func(z ssa.Value) bool {
-								call, ok := z.(*ssa.Call)
-								return ok && call.Call.IsInvoke() && call.Call.Method.Name() == "Referrers" && isField(call.Call.Value)
-							})
+							if strings.HasSuffix(CalleeName(ci.Common()), ".removeInstr") {
+								return DerivesLocal(ci.Common().Args[0], func(z ssa.Value) bool {
+									call, ok := z.(*ssa.Call)
+									return ok && call.Call.IsInvoke() && call.Call.Method.Name() == "Referrers" && isField(call.Call.Value)
+								})
+							}
+							// a helper of the package that is handed the operand and takes the instruction out of its referrers
+							h := ci.Common().StaticCallee()
+							if h == nil || h.Blocks == nil || FuncPkgPath(h) != irPkg {
+								return false
+							}
+							for pi, prm := range h.Params {
+								if pi >= len(ci.Common().Args) || !isField(ci.Common().Args[pi]) {
+									continue
+								}
+								for _, hc := range Calls(h, false) {
+									if !strings.HasSuffix(CalleeName(hc.Common()), ".removeInstr") {
+										continue
+									}
+									onParam := DerivesLocal(hc.Common().Args[0], func(z ssa.Value) bool {
+										call, ok := z.(*ssa.Call)
+										return ok && call.Call.IsInvoke() && call.Call.Method.Name() == "Referrers" && call.Call.Value == ssa.Value(prm)
+									})
+									if !onParam {
+										continue
+									}
+									// on every path through the helper, except where the operand has no referrer list
+									noRefs := EqEdges(h, func(x, y ssa.Value) bool {
+										call, ok := x.(*ssa.Call)
+										return IsNilConst(y) && ok && call.Call.IsInvoke() && call.Call.Method.Name() == "Referrers"
+									})
+									t, _ := PathAvoiding(h, nil, func(z ssa.Instruction) bool { _, isRet := z.(*ssa.Return); return isRet }, func(z ssa.Instruction) bool { return z == ssa.Instruction(hc) }, noRefs)
+									if t == nil {
+										return true
+									}
+								}
+							}
+							return false
 						}
 						noRefsF := EqEdges(fn, func(x, y ssa.Value) bool {
 							call, ok := x.(*ssa.Call)
@@ -408,11 +461,45 @@ func runC02(c *Ctx) {
 			} else if callee := cc.StaticCallee(); callee != nil && len(cc.Args) > 0 {
 				name, recv = callee.Name(), cc.Args[0]
 			}
-			if name != "setType" {
+			isV := func(r ssa.Value) bool {
+				return r == v || AddrFrom(r, func(x ssa.Value) bool { return x == v }) || DerivesLocal(r, func(x ssa.Value) bool { return x == v })
+			}
+			if name == "setType" {
+				// receiver is (the register embedded in) v
+				return isV(recv)
+			}
+			// a helper of the package that sets the type of the instruction it is handed, on every path
+			h := cc.StaticCallee()
+			if h == nil || h.Blocks == nil || FuncPkgPath(h) != irPkg {
 				return false
 			}
-			// receiver is (the register embedded in) v
-			return recv == v || AddrFrom(recv, func(x ssa.Value) bool { return x == v }) || DerivesLocal(recv, func(x ssa.Value) bool { return x == v })
+			for pi, prm := range h.Params {
+				if pi >= len(cc.Args) || !isV(cc.Args[pi]) {
+					continue
+				}
+				for _, hc := range Calls(h, false) {
+					hcc := hc.Common()
+					hn := ""
+					var hrecv ssa.Value
+					if hcc.IsInvoke() {
+						hn, hrecv = hcc.Method.Name(), hcc.Value
+					} else if callee := hcc.StaticCallee(); callee != nil && len(hcc.Args) > 0 {
+						hn, hrecv = callee.Name(), hcc.Args[0]
+					}
+					if hn != "setType" {
+						continue
+					}
+					onParam := hrecv == ssa.Value(prm) || AddrFrom(hrecv, func(x ssa.Value) bool { return x == ssa.Value(prm) }) || DerivesLocal(hrecv, func(x ssa.Value) bool { return x == ssa.Value(prm) })
+					if !onParam {
+						continue
+					}
+					t, _ := PathAvoiding(h, nil, func(z ssa.Instruction) bool { _, isRet := z.(*ssa.Return); return isRet }, func(z ssa.Instruction) bool { return z == ssa.Instruction(hc) }, nil)
+					if t == nil {
+						return true
+					}
+				}
+			}
+			return false
 		}
 		n := 0
 		for _, fn := range funcs {
@@ -463,11 +550,39 @@ func runC02(c *Ctx) {
 				n++
 				name := named.Obj().Name()
 				nEdges := 0
-				for _, ci := range CallsTo(fn, false, irPkg+".addEdge") {
+				isRetI := func(x ssa.Instruction) bool { _, ok := x.(*ssa.Return); return ok }
+				for _, ci := range Calls(fn, false) {
+					weight := 0
+					if IsCallTo(ci, irPkg+".addEdge") {
+						weight = 1
+					} else if h := ci.Common().StaticCallee(); h != nil && h.Blocks != nil && FuncPkgPath(h) == irPkg && h != fn {
+						// a helper that adds edges itself: the edges it adds on every path
+						for _, hc := range CallsTo(h, false, irPkg+".addEdge") {
+							if t, _ := PathAvoiding(h, nil, isRetI, func(x ssa.Instruction) bool { return x == ssa.Instruction(hc) }, nil); t == nil {
+								weight++
+							}
+						}
+						// only dedicated edge helpers: a function that creates a terminator itself (emitJump, emitIf, the
+						// builder's statement functions) adds the edges of its own terminator, not of the caller's
+						createsTerminator := false
+						Instrs(h, false, func(x ssa.Instruction) {
+							if a2, ok := x.(*ssa.Alloc); ok {
+								if nm, ok := types.Unalias(a2.Type().(*types.Pointer).Elem()).(*types.Named); ok && nm.Obj().Pkg() != nil && nm.Obj().Pkg().Path() == irPkg && terminators[nm.Obj().Name()] {
+									createsTerminator = true
+								}
+							}
+						})
+						if createsTerminator || len(h.Blocks) > 2 {
+							weight = 0
+						}
+					}
+					if weight == 0 {
+						continue
+					}
 					// on every path from the creation to the function's return?
-					t, _ := PathAvoiding(fn, al, func(x ssa.Instruction) bool { _, ok := x.(*ssa.Return); return ok }, func(x ssa.Instruction) bool { return x == ssa.Instruction(ci) }, nil)
+					t, _ := PathAvoiding(fn, al, isRetI, func(x ssa.Instruction) bool { return x == ssa.Instruction(ci) }, nil)
 					if t == nil {
-						nEdges++
+						nEdges += weight
 					}
 				}
 				key := FuncKey(fn) + "::creates-" + name
